@@ -54,6 +54,8 @@ LEVEL_NOTE = ("Model = RxModel/Comb.lean (uniform event rule, disposable plumbin
 "collapsed into one. The INLINE hand-over (subscription with an ImmediateScheduler, sources terminating inside subscribe) is the machine seqInlineM "
 "(handler followed by the action it armed); for it seq_one_live_inline, seq_output_concat_inline, seq_output_sorted_inline, repeat_n_subscribes_n_inline, "
 "retry_at_most_n_inline and retry_stops_on_completion_inline are proved (seq_next_after_terminal is specific to the queued hand-over). For sources that notify inside subscribe the position of their own unsubscribe is compared by time only. "
+"Unlogged failing sources (`rx.throw(ex)` in the source list) are generated for concat / catch / on_error_resume_next under the queued hand-over (item kind `fail`: "
+"concat ends with their error, catch / on_error_resume_next continue over them; under the INLINE hand-over a chain of such sources is not modelled and not generated). "
 "A raising for_in mapper / while_do condition is the item kind `fail` (the code wraps it into a source that fails at once: defer / throw), a raising "
 "iterator or on_error_resume_next factory the kind `raise`. Sources that complete or FAIL inside subscribe are also generated under the queued hand-over and for catch(handler). Not modelled: futures as sources. Trusted: logging sources/tap, the event-list replay.")
 
@@ -137,11 +139,21 @@ def cases(rng, tier):
                     c["dispose"] = None
         if c["cut"] is None and rng.random() < 0.1 and not any(sp.get("mode") == "sync" for sp in c.get("srcs", [])):
             c["cut"] = rng.choice([1, 2, 3])
+        # unlogged failing sources (`rx.throw(ex)`) inside the source list: concat ends with their error, catch / on_error_resume_next
+        # continue over them (item kind `fail`)
+        if op in ("concat", "catch", "oern") and not c.get("inline") and c.get("srcs") and rng.random() < 0.2:
+            for j in range(len(c["srcs"])):
+                if rng.random() < 0.4:
+                    c["srcs"][j] = {"mode": "throw", "err": f"t{j}"}
+            if op == "oern":
+                c["factory"] = [f and c["srcs"][j]["mode"] != "throw" for j, f in enumerate(c["factory"])]
+                if c.get("factory_raises_at") is not None and c["srcs"][c["factory_raises_at"]]["mode"] == "throw":
+                    c["factory_raises_at"] = None
         # sources that notify - in particular FAIL or complete - synchronously inside subscribe, under the queued hand-over too
         # (catch(handler): the handler's sequence is installed from inside the source's subscribe call)
         if op in LIST_OPS and not c.get("inline") and c.get("srcs") and rng.random() < (0.45 if op == "catch_handler" else 0.15):
             base = 1 if op == "start_with" else 0
-            js = [0] if op == "catch_handler" else [j for j in range(len(c["srcs"])) if rng.random() < 0.6]
+            js = [0] if op == "catch_handler" else [j for j in range(len(c["srcs"])) if rng.random() < 0.6 and c["srcs"][j]["mode"] != "throw"]
             for j in js:
                 p_c, p_e = {"concat": (0.8, 0.15), "catch": (0.15, 0.8), "oern": (0.5, 0.5)}[kind]
                 c["srcs"][j] = {"mode": "sync", "msgs": cc.gen_timeline(rng, base + j, maxn=2, span=5, p_complete=p_c, p_error=p_e)}
@@ -169,7 +181,8 @@ def world_and_build(case):
     def build():
         if op in LIST_OPS:
             base = 1 if op == "start_with" else 0
-            srcs = [cc.make_src(w, base + j, s) for j, s in enumerate(case["srcs"])]
+            srcs = [rx.throw(InjectedError(s["err"])) if s["mode"] == "throw" else cc.make_src(w, base + j, s)
+                    for j, s in enumerate(case["srcs"])]
         if op == "concat":
             return rx.concat(*srcs)
         if op == "ops_concat":
@@ -255,10 +268,11 @@ def _run_impl(case):
 def items_of(case):
     """what the j-th next(sources_) does, from the case alone"""
     op = case["op"]
-    if op == "oern" and case.get("factory_raises_at") is not None:
-        return ["src"] * case["factory_raises_at"] + [{"raise": "factory"}], "stop"
     if op in LIST_OPS and op not in ("for_in", "catch_handler", "start_with"):
-        return ["src"] * len(case["srcs"]), "stop"
+        its = [{"fail": sp["err"]} if sp["mode"] == "throw" else "src" for sp in case["srcs"]]
+        if op == "oern" and case.get("factory_raises_at") is not None:
+            its = its[: case["factory_raises_at"]] + [{"raise": "factory"}]
+        return its, "stop"
     if op == "start_with":
         return ["src", "src"], "stop"
     if op == "for_in":
@@ -343,10 +357,10 @@ def oracle(case, out):
         if e[0] == "sub":
             if open_subs:
                 return f"source {e[1]} subscribed at {e[2]} while {open_subs} still subscribed"
-            if subs and e[1] != subs[-1] + 1:
+            thrown = {j for j, sp in enumerate(case.get("srcs", [])) if sp.get("mode") == "throw"}
+            lo = subs[-1] + 1 if subs else 0
+            if e[1] < lo or any(j not in thrown for j in range(lo, e[1])):   # only unlogged failing sources may lie in between
                 return f"sources subscribed out of order: {subs + [e[1]]}"
-            if not subs and e[1] != 0:
-                return f"first subscription is to source {e[1]}"
             if subs:
                 prev = subs[-1]
                 lt = last_term.get(prev)
@@ -381,10 +395,27 @@ def oracle(case, out):
     expect = []
     fin = False
     last_err = None
-    if item(0) == "stop":
-        expect.append([cc.SUBSCRIBE_AT, ["C"]]); fin = True
-    elif item(0) != "src":
-        expect.append([cc.SUBSCRIBE_AT, ["E", item(0).get("raise") or item(0).get("fail")]]); fin = True
+    def advance(j, t):
+        """what happens when the iterator is asked for position j at time t: returns True if the sequence ended"""
+        nonlocal last_err
+        while True:
+            nx = item(j)
+            if nx == "src":
+                return False
+            if nx == "stop":
+                expect.append([t, last_err if (kind == "catch" and last_err) else ["C"]])
+                return True
+            if "raise" in nx:
+                expect.append([t, ["E", nx["raise"]]])
+                return True
+            # an unlogged source that fails at once
+            if kind == "concat":
+                expect.append([t, ["E", nx["fail"]]])
+                return True
+            last_err = ["E", nx["fail"]]
+            j += 1
+
+    fin = advance(0, cc.SUBSCRIBE_AT)
     for (p, s, nt, t) in acc:
         if fin or (disposed_pos is not None and p > disposed_pos):
             break
@@ -403,18 +434,15 @@ def oracle(case, out):
         if not continues(kind, nt):
             expect.append([t, nt]); fin = True
             continue
-        nx = item(s + 1)
-        if nx == "src":
+        if item(s + 1) == "src":
             continue
         # the final terminal is produced by the scheduled action: not if the dispose comes first
         nxt = [e for e in log[p + 1:] if e[0] in ("dispose", "tick")]
         if nxt and nxt[0][0] == "dispose" and not case.get("inline"):   # inline: the action runs inside the terminal handler
             break
-        if nx == "stop":
-            expect.append([t, last_err if (kind == "catch" and last_err) else ["C"]])
-        else:
-            expect.append([t, ["E", nx.get("raise") or nx.get("fail")]])
-        fin = True
+        fin = advance(s + 1, t)
+        if not fin and disposed_pos is not None:
+            pass
     if got != expect:
         return f"{op}: got {got}, expected concatenation {expect}"
     v = cc.timer_delivery_failure(case.get("srcs", []), log)
